@@ -16,7 +16,7 @@ def linetype(tier):
     from checks import C02
     LN = 4 if tier == 'quick' else 6
     out = []
-    for k in ('TEXT_PLAIN', 'NON_INDENT_SPACE', 'TEXT_NUMBER_POSS_LIST'):
+    for k in ('TEXT_PLAIN', 'NON_INDENT_SPACE', 'TEXT_NUMBER_POSS_LIST', 'INDENT_TAB', 'INDENT_SPACE', 'TEXT_NL', 'TEXT_LINEBREAK'):
         d = dict(N=LN, T1=k)
         if k == 'TEXT_NUMBER_POSS_LIST' and tier == 'quick':
             d['ONE_TOKEN'] = 1
@@ -42,7 +42,7 @@ def harnesses(tier):
              unwind=12, unwindset=['label_from_string.0:4', 'label_from_string.1:4'], timeout=900, mem_gb=6, functional=True, pool_off=True,
              bounds='value of %d arbitrary bytes (no line break, no backslash, already trimmed, single inner spaces); line followed by: %s' % (3 if tier == 'quick' else 4, tn.replace('_', ' ')),
              desc='strip_line_tokens_from_metadata + meta_set_value: stored value == source value, whatever follows the line')
-        for t, tn in enumerate(['eof_without_newline', 'newline_then_eof', 'blank_line', 'next_key', 'crlf_then_eof'])]
+        for t, tn in enumerate(['eof_without_newline', 'newline_then_eof', 'blank_line', 'next_key', 'crlf_then_eof', 'continuation_line'])]
 
 CLAIM = dict(
     text='CBMC compares the real value/key normalisation kernels of the metadata path with the documented reference on every string within '
